@@ -226,7 +226,9 @@ def run_check(cid, tier, seed):
         for f in findings:
             path = os.path.join(ROOT, f["replay"])
             listed.add(os.path.abspath(path))
-            st, out = replay_file(binary, cid, path, True, work)
+            # a known finding is replayed with its own exclusion switched off; a fixed one runs like
+            # any other input (other, still known, findings may touch the same case)
+            st, out = replay_file(binary, cid, path, f["status"] == "known", work)
             if f["status"] == "known":
                 if st in ("fail", "crash", "hang"):
                     known_lines.append(f"KNOWN-FINDING: property={cid} {f['id']}: {f['what']}")
@@ -540,6 +542,10 @@ def main():
     sub.add_parser("manifest")
     sub.add_parser("baseline")
     sub.add_parser("list")
+    al = sub.add_parser("all")
+    al.add_argument("--tier", default="quick", choices=["quick", "thorough"])
+    al.add_argument("--seed", type=int, default=1)
+    al.add_argument("--only", default="")
     a = ap.parse_args()
     os.chdir(ROOT)
     if a.cmd == "run":
@@ -561,6 +567,20 @@ def main():
         return cmd_manifest()
     if a.cmd == "baseline":
         return cmd_baseline()
+    if a.cmd == "all":
+        bad = []
+        ids = [c for c in CHECKS if not a.only or c in a.only.split(",")]
+        for cid in ids:
+            t0 = time.time()
+            p = subprocess.run([sys.executable, os.path.join(ROOT, "verif.py"), "run", cid, "--tier", a.tier, "--seed", str(a.seed)],
+                               capture_output=True, text=True)
+            last = [l for l in p.stdout.splitlines() if l.startswith(cid + " ")]
+            log(f"{cid}: exit={p.returncode} {time.time()-t0:.0f}s {last[-1][:160] if last else ''}")
+            if p.returncode != 0:
+                bad.append(cid)
+                log("\n".join(l[:300] for l in p.stdout.splitlines() if l.startswith(("VIOLATION", "INCONCLUSIVE", "---", "BUILD"))))
+        log("ALL OK" if not bad else "NOT OK: " + " ".join(bad))
+        return 0 if not bad else 1
     if a.cmd == "list":
         for cid in CHECKS:
             log(cid)
